@@ -77,6 +77,26 @@ pub proof fn axiom_f64_eq_euclidean(a: f64, b: f64, c: f64)
     ensures feq(a, b) && feq(a, c) ==> feq(b, c),
 {}
 
+// order facts about the constant used by the termination argument of the Dijkstra kernels (a candidate below a value that is at most
+// f64::MAX is below f64::MAX; a value below f64::MAX is not equal to it and at most it; MAX <= MAX; 0.0 <= MAX; a value equal to f64::MAX is
+// not below it). Not in the default group: called explicitly. All are checked on the machine's f64 by the Kani lemma a1_float_identities.
+#[verifier::external_body]
+pub proof fn axiom_f64_lt_below_max(x: f64, y: f64)
+    ensures flt(x, y) && fle(y, f64_max()) ==> flt(x, f64_max()),
+{}
+#[verifier::external_body]
+pub proof fn axiom_f64_below_max_facts(x: f64)
+    ensures flt(x, f64_max()) ==> !feq(x, f64_max()) && fle(x, f64_max()),
+{}
+#[verifier::external_body]
+pub proof fn axiom_f64_max_and_zero_le_max()
+    ensures fle(f64_max(), f64_max()), fle(0.0f64, f64_max()),
+{}
+#[verifier::external_body]
+pub proof fn axiom_f64_eq_max_not_below(x: f64)
+    ensures feq(x, f64_max()) ==> !flt(x, f64_max()),
+{}
+
 pub broadcast group group_f64_axioms {
     axiom_f64_lt_irreflexive, axiom_f64_neg_involution, axiom_f64_max_eq_self,
     axiom_f64_lt, axiom_f64_gt, axiom_f64_le, axiom_f64_ge, axiom_f64_eq, axiom_f64_ne,
